@@ -141,7 +141,8 @@ class Exec:
 
     def fpconst(s, x, t):
         if s.fpmode == 'real':
-            import fractions
+            import fractions, math
+            if math.isinf(x) or math.isnan(x): return NonFinite(x)     # only comparisons / isfinite tests are defined on these
             fr = fractions.Fraction(x)
             return z3.RealVal(fr)
         return z3.FPVal(x, z3.Float64() if t.k == 'double' else z3.Float32())
@@ -581,6 +582,14 @@ class Exec:
             L[d] = s.icmp(st, x['pred'], x['opty'], s.val(st, x['a']), s.val(st, x['b']))
         elif op == 'fcmp':
             a = s.fpv(s.val(st, x['a'])); b = s.fpv(s.val(st, x['b'])); p = x['pred']
+            if s.fpmode == 'real' and (isinstance(a, NonFinite) or isinstance(b, NonFinite)):
+                import math
+                fa = a.x if isinstance(a, NonFinite) else 0.0; fb = b.x if isinstance(b, NonFinite) else 0.0   # any finite stand-in: only the order against +-inf matters
+                if isinstance(a, NonFinite) and isinstance(b, NonFinite): pass
+                nan = math.isnan(fa) or math.isnan(fb)
+                base = {'eq': fa == fb, 'ne': fa != fb, 'gt': fa > fb, 'ge': fa >= fb, 'lt': fa < fb, 'le': fa <= fb}
+                L[d] = (not nan) if p == 'ord' else nan if p == 'uno' else ((not nan) and base[p[1:]]) if p[0] == 'o' else (nan or base[p[1:]])
+                return
             if s.fpmode == 'real':
                 L[d] = {'oeq': a == b, 'ueq': a == b, 'one': a != b, 'une': a != b, 'ogt': a > b, 'ugt': a > b, 'oge': a >= b, 'uge': a >= b,
                         'olt': a < b, 'ult': a < b, 'ole': a <= b, 'ule': a <= b, 'ord': z3.BoolVal(True), 'uno': z3.BoolVal(False)}[p]
@@ -942,7 +951,9 @@ class Exec:
             return a[0] * a[1] + a[2] if s.fpmode == 'real' else z3.fpAdd(z3.RNE(), z3.fpMul(z3.RNE(), a[0], a[1]), a[2])
         if name.startswith('llvm.fabs') or name in ('fabs', 'fabsf'):
             if s.fpmode != 'real': return z3.fpAbs(a[0])
+            if isinstance(a[0], NonFinite): return NonFinite(abs(a[0].x))
             v = z3.simplify(a[0])
+            if len(v.sexpr()) < 4000: return z3.If(v >= 0, v, -v)
             if z3.is_rational_value(v): return v if v.numerator_as_long() >= 0 else -v
             # fork on the sign (keeps each path's value a polynomial, which the normalisation pre-pass can close)
             c = v >= 0; nc = z3.Not(c)
@@ -1042,6 +1053,10 @@ class Exec:
         if r is not cxxrt.NOT: return r
         raise Violation('unsupported', 'external function ' + name, st)
 
+class NonFinite:
+    """an infinity / NaN constant in fp mode 'real' (reals have none): may be stored, loaded, compared; arithmetic on it is unsupported"""
+    def __init__(s, x): s.x = x
+    def __repr__(s): return 'NonFinite(%r)' % s.x
 class _Undecided:
     def eval(s, *a, **k): raise z3.Z3Exception('no model')
 UNDECIDED = _Undecided()
